@@ -103,7 +103,7 @@ pub fn run_xml(i: &Input) -> Value {
         })
         .unwrap_or_else(|p| Err(format!("PANIC {p}")));
         match text {
-            Err(e) => outs.push(json!({"indent":indent,"serok":false,"sermsg":e,"text":[],"out":out_json(Err("not serialised".into())),"lexok":true,"names":[],"chunks":[]})),
+            Err(e) => outs.push(json!({"indent":indent,"serok":false,"sermsg":e,"text":[],"out":out_json(Err("not serialised".into())),"lexok":true,"names":[],"chunks":[],"props":[]})),
             Ok(t) => {
                 let out: Result<Vec<Value>, String> = guarded(|| {
                     let mut v = vec![];
@@ -112,8 +112,9 @@ pub fn run_xml(i: &Input) -> Value {
                 })
                 .unwrap_or_else(|p| Err(format!("PANIC {p}")));
                 let (lexok, names, chunks) = xml_lex(&t);
+                let props: Vec<Value> = if indent == 0 { xml_property_elements(&t) } else { vec![] };
                 outs.push(json!({"indent":indent,"serok":true,"sermsg":"","text": if indent == 0 || indent == 4 { cps(&t) } else { json!([]) },"out":out_json(out),
-                    "lexok":lexok,"names":names,"chunks":chunks}));
+                    "lexok":lexok,"names":names,"chunks":chunks,"props":props}));
             }
         }
     }
@@ -295,4 +296,32 @@ pub fn xml_lex(t: &str) -> (bool, Vec<Value>, Vec<Value>) {
         return fail(&names, &chunks);
     }
     (true, names.iter().map(|x| cps(x)).collect(), chunks.iter().map(|x| cps(x)).collect())
+}
+
+/// the property elements of a document written by the serializer: element name and the namespace it is declared in
+/// (`xmlns="..."` for an unprefixed name, `xmlns:prop="..."` for the formatter's `prop:` form), in document order
+pub fn xml_property_elements(t: &str) -> Vec<Value> {
+    let mut out = vec![];
+    let mut rest = t;
+    while let Some(i) = rest.find('<') {
+        rest = &rest[i + 1..];
+        if rest.starts_with('/') || rest.starts_with('?') || rest.starts_with("rdf:") {
+            continue;
+        }
+        let end = rest.find('>').unwrap_or(rest.len());
+        let tag = &rest[..end];
+        let name: String = tag.chars().take_while(|c| !c.is_whitespace() && *c != '/').collect();
+        let (local, key) = match name.strip_prefix("prop:") {
+            Some(l) => (l.to_string(), " xmlns:prop=\""),
+            None => (name.clone(), " xmlns=\""),
+        };
+        if let Some(k) = tag.find(key) {
+            let v = &tag[k + key.len()..];
+            let ns = &v[..v.find('"').unwrap_or(v.len())];
+            // attribute values are escaped by the writer: undo the five predefined entities
+            let ns = ns.replace("&lt;", "<").replace("&gt;", ">").replace("&quot;", "\"").replace("&apos;", "'").replace("&amp;", "&");
+            out.push(json!({"name": cps(&local), "ns": cps(&ns)}));
+        }
+    }
+    out
 }
